@@ -129,6 +129,8 @@ func ghostTimerPrefix(kg uint16) []byte { return []byte{byte(kg >> 8), byte(kg),
 // delivered barrier N, after the pending batch was flushed, under the barrier's
 // id; the acknowledgement carries that id, this operator's id, the URI just
 // returned and this operator's key-group range.
+// (The cut is taken only if that flush SUCCEEDED: the flushed events have left the batcher, and a
+// checkpoint taken after a failed flush would be acknowledged without their effects.)
 //@ func Operator.handleCheckpointBarrier
 //@   property C02
 //@   requires barrier != nil && o.sourceRunners != nil && len(o.sourceRunners.all) >= 1 && o.db != nil
@@ -136,6 +138,7 @@ func ghostTimerPrefix(kg uint16) []byte { return []byte{byte(kg >> 8), byte(kg),
 //@   order Checkpoint after processEventBatch
 //@   order Checkpoint after registerBarrier
 //@   atcall Checkpoint: arg0 == barrier.CheckpointId
+//@   atcall Checkpoint: flushErr == nil
 //@   atcall processEventBatch: o.checkpoint != nil && len(o.checkpoint.srIDs) == 0 && o.checkpoint.checkpointID == barrier.CheckpointId
 //@   atcall OperatorCheckpointComplete: arg1.CheckpointId == barrier.CheckpointId && arg1.OperatorId == o.id && arg1.DkvFileUri == cp.URI
 //@   atcall OperatorCheckpointComplete: int(arg1.KeyGroupRange.Start) == o.keyGroupRange.Start && int(arg1.KeyGroupRange.End) == o.keyGroupRange.End
